@@ -223,18 +223,32 @@ def r12(repo, rep):
                        "weights, so the paired update is applied twice" % (short(calls[0], 40), short(blk[i], 50), short(blk[js[0]], 50)))
     # I6: an emptied list has total weight exactly 0 (loops of the form `while X.total_weight() > 0` must terminate;
     # float residue of repeated += / -= must not keep an empty candidate set "active")
+    import re as _re
     reset = False
+    extra = []
     for c in walk_function(rem0.node):
         st = c.stmt
         if isinstance(st, ast.Assign) and any(_is_self_attr(t, "_total_weight") for t in st.targets) \
                 and isinstance(st.value, ast.Constant) and st.value.value == 0:
+            here = False
+            others = []
             for fx, pol in c.facts:
                 t = short(fx).replace(" ", "")
-                if (pol and t in ("len(self.items)==0", "len(self)==0")) or ((not pol) and t in ("self.items", "len(self.items)", "len(self)", "len(self.items)>0", "len(self)>0")):
-                    reset = True
-    rep.ob("R12.I6", reset, "remove: when the last item leaves, the total is reset to exactly 0", func=rem0, node=rem0.node,
-           construct="remove: _total_weight = 0 when empty",
-           detail="" if reset else "nothing resets _total_weight when the list becomes empty: the rounding residue of repeated +=/-= keeps "
+                if (pol and t in ("len(self.items)==0", "len(self)==0", "notself.items", "not(self.items)")) or \
+                        ((not pol) and t in ("self.items", "len(self.items)", "len(self)", "len(self.items)>0", "len(self)>0")):
+                    here = True
+                elif t == "self.weighted" or _re.fullmatch(r"\w+(notin|in)self(\.item_to_position|\.items)?|self\.__contains__\(\w+\)", t):
+                    pass
+                else:
+                    others.append(("" if pol else "not ") + short(fx))
+            if here and not others:
+                reset = True
+            elif here:
+                extra = others
+    rep.ob("R12.I6", reset, "remove: when the last item leaves, the total is reset to exactly 0, whatever the weight that left", func=rem0,
+           node=rem0.node, construct="remove: _total_weight = 0 when empty",
+           detail="" if reset else ("the reset of _total_weight for an emptied list only happens when also %s" % extra if extra else
+           "nothing resets _total_weight when the list becomes empty") + ": the rounding residue of repeated +=/-= keeps "
            "`total_weight() > 0` true on an empty candidate set (Gillespie_complex_contagion then calls random.choice on an empty list)")
 
     # ---------------- I2: max_weight is an upper bound -----------------------
@@ -410,6 +424,13 @@ def r12(repo, rep):
                             _is_self_attr(s2.targets[0].value, "item_to_position") and \
                             same(s2.targets[0].slice, item) and \
                             short(s2.value).replace(" ", "") == "len(self.items)-1":
+                        app_ok = True
+                # the same index written the other way round: position = len(items) immediately BEFORE the append
+                if i > 0:
+                    s0 = blk[i - 1]
+                    if isinstance(s0, ast.Assign) and len(s0.targets) == 1 and isinstance(s0.targets[0], ast.Subscript) and \
+                            _is_self_attr(s0.targets[0].value, "item_to_position") and same(s0.targets[0].slice, item) and \
+                            short(s0.value).replace(" ", "") == "len(self.items)":
                         app_ok = True
                 # must be guarded: not already present
                 ctx = [c for c in walk_function(upd.node) if c.stmt is st][0]
